@@ -90,7 +90,7 @@ def failed(
     limit = int(limit[0]) if limit else None
     return build_return_object(
         dawgie.pl.logger.chronicle.find(
-            before=before, limit=limit, succeeded=False
+            after=after, before=before, limit=limit, succeeded=False
         )
     )
 
@@ -134,7 +134,7 @@ def succeeded(
     limit = int(limit[0]) if limit else None
     return build_return_object(
         dawgie.pl.logger.chronicle.find(
-            before=before, limit=limit, succeeded=True
+            after=after, before=before, limit=limit, succeeded=True
         )
     )
 
